@@ -66,7 +66,7 @@ PROPS = {
         "not_decided": ["'always stops' as liveness", "actual timing"],
     },
     "C04": {
-        "modules": ["contracts.c04_tracking", "contracts.c05_collections"],
+        "modules": ["contracts.c04_tracking", "contracts.c05_collections", "contracts.c13_reference"],
         "level": "proof",
         "design_ref": "DESIGN.md section 8, C04",
         "trusted_base": [
@@ -280,7 +280,7 @@ PROPS = {
         "not_decided": ["sharing does not change any output; any admissible statement order yields identical streams (relations between two programs' runs)"],
     },
     "C13": {
-        "modules": ["contracts.c13_reference", "contracts.c09_nested"],
+        "modules": ["contracts.c13_reference", "contracts.c09_nested", "contracts.c12_switch"],
         "level": "proof",
         "design_ref": "DESIGN.md section 8, C13",
         "trusted_base": [
